@@ -1,6 +1,7 @@
 package main
 
 import (
+	"fmt"
 	"strings"
 )
 
@@ -196,4 +197,52 @@ func groundObligation(facts []string, goal string) (decl string, extra []string,
 		}
 	}
 	return decl, extra, g, replaced
+}
+
+// incompletePattern reports a quantifier with an explicit trigger that does not mention all of its bound variables
+// (solvers drop such quantifiers or reject the query; either way the fact would silently be lost).
+func incompletePattern(f string) string {
+	if !strings.Contains(f, ":pattern") {
+		return ""
+	}
+	var bad string
+	var walk func(n *sx_)
+	collect := func(n *sx_, into map[string]bool) {
+		var rec func(m *sx_)
+		rec = func(m *sx_) {
+			if m.kids == nil {
+				into[m.atom] = true
+				return
+			}
+			for _, k := range m.kids {
+				rec(k)
+			}
+		}
+		rec(n)
+	}
+	walk = func(n *sx_) {
+		if n == nil || n.kids == nil || bad != "" {
+			return
+		}
+		if n.head() == "forall" && len(n.kids) == 3 && n.kids[2].head() == "!" {
+			ann := n.kids[2]
+			for i := 2; i+1 < len(ann.kids); i += 2 {
+				if ann.kids[i].kids == nil && ann.kids[i].atom == ":pattern" {
+					seen := map[string]bool{}
+					collect(ann.kids[i+1], seen)
+					for _, b := range n.kids[1].kids {
+						if len(b.kids) >= 1 && b.kids[0].kids == nil && !seen[b.kids[0].atom] {
+							bad = fmt.Sprintf("trigger %s does not mention the bound variable %s", ann.kids[i+1].String(), b.kids[0].atom)
+							return
+						}
+					}
+				}
+			}
+		}
+		for _, k := range n.kids {
+			walk(k)
+		}
+	}
+	walk(parseSexpr(f))
+	return bad
 }
